@@ -170,6 +170,20 @@ def main(rep, tier, only):
                         inner = [q for op in (lam.get("ops", []) if lam and lam.get("k") == "lambda" else []) for (_, _, q) in L.calls_in(u, op.get("body"))]
                         ok = fn["params"][0]["name"] in st and any(q.endswith("::function") for q in inner)
                         why = "fold does not start from the initial value or does not invoke item.function()"
+                        # left fold: combiner(state so far, result of this connection), in that order
+                        if ok and lam is not None and lam.get("ops"):
+                            op0 = lam["ops"][0]
+                            pn = [p_["name"] for p_ in op0.get("params", [])]
+                            comb = [c for c in F.walk(op0.get("body")) if c.get("k") == "call" and c.get("recv") is not None and "combiner_" in T.show(T.norm(u, c["recv"]))]
+                            if len(pn) == 2 and len(comb) == 1 and len(comb[0].get("args", [])) == 2:
+                                a0 = T.show(T.norm(u, comb[0]["args"][0]))
+                                a1 = T.show(T.norm(u, comb[0]["args"][1]))
+                                if not (pn[1] in a0 and pn[0] not in a0 and pn[0] in a1 and "function" in a1):
+                                    ok = False
+                                    why = "the combiner is called as combiner(%s, %s); a left fold calls combiner(state so far, result of this connection)" % (a0, a1)
+                            else:
+                                ok = False
+                                why = "the fold step does not call the combiner exactly once with two arguments"
             if ok:
                 rep.ok("SIG-ORDER", key, F.primary_site(fn), F.describe(fn), how="list-order")
             else:
